@@ -354,6 +354,7 @@ class CallMixin:
             except Unsupported as e:
                 self.elab_fail('precondition of %s %r: %s' % (label, c.text, e))
         pre = st.copy()
+        before_cover = (len(self.hyps), st.pc)
         if spec.modifies:
             self.havoc_locs(spec.modifies, env, st)
         # results
@@ -392,7 +393,7 @@ class CallMixin:
                 self.elab_fail('postcondition of %s %r: %s' % (label, c.text, e))
         if spec.ensures and not self.mute:
             # vacuity canary: the assumed postcondition must not contradict what is known at this call site
-            self.cover('after-%s' % re.sub(r'[^A-Za-z0-9_.$]', '_', label)[:40], st, pos)
+            self.cover('after-%s' % re.sub(r'[^A-Za-z0-9_.$]', '_', label)[:40], st, pos, before=before_cover)
         if getattr(spec, 'alias', None) and spec.alias in names:
             # the call returns that argument itself (same function value / object)
             return names[spec.alias][0]
